@@ -8,13 +8,18 @@ open C06.Gen
 
 /-! ### the generated tables (re-checked by kernel evaluation on every regeneration) -/
 
+/-- the hex map is exactly "two hexadecimal digits (either case) -> their value" -/
+def hexSpec (a b : Nat) : Option Nat :=
+  if isHexDigit a && isHexDigit b then some (16 * hexVal a + hexVal b) else none
+
 /-- one row of a quote map is right: either the byte itself (ASCII, raw-legal at that position,
-    not `%`), or `%` + two upper-case hex digits that the hex map sends back to the byte; and no
-    character of the row is a delimiter for the parser at that position -/
+    not `%`), or `%` + two upper-case hex digits that denote the byte (`hexSpec`; the decoder's own table is
+    proved equal to `hexSpec` below, `hexPair_eq_spec`); and no character of the row is a delimiter for the parser
+    at that position -/
 def entryOK (c : Comp) (b : Nat) (e : List Nat) : Bool :=
   ((e == [b] && b != 37 && b < 128 && legalRaw c b) ||
    (match e with
-    | [p, h, l] => p == 37 && isUpperHex h && isUpperHex l && hexPair? h l == some b
+    | [p, h, l] => p == 37 && isUpperHex h && isUpperHex l && hexSpec h l == some b
     | _ => false)) &&
   e.all (fun ch => !(stopSet c).contains ch)
 
@@ -36,10 +41,6 @@ def delimsOK (c : Comp) : Bool :=
 theorem delimsOK_all (c : Comp) : delimsOK c = true := by
   cases c <;> decide +kernel
 
-/-- the hex map is exactly "two hexadecimal digits (either case) -> their value" -/
-def hexSpec (a b : Nat) : Option Nat :=
-  if isHexDigit a && isHexDigit b then some (16 * hexVal a + hexVal b) else none
-
 def hexDigits : List Nat :=
   [48, 49, 50, 51, 52, 53, 54, 55, 56, 57, 65, 66, 67, 68, 69, 70, 97, 98, 99, 100, 101, 102]
 
@@ -55,18 +56,42 @@ theorem isHexDigit_mem (a : Nat) (h : isHexDigit a = true) : a ∈ hexDigits := 
 theorem hexMap_sound : hexMap.all (fun e => hexSpec e.1 e.2.1 == some e.2.2) = true := by
   decide +kernel
 
-/-- … and every pair of hex digits is found, with that value -/
-theorem hexMap_complete :
-    hexDigits.all (fun a => hexDigits.all fun b => hexPair? a b == hexSpec a b) = true := by
+/-- … and the keys of the table are exactly the 22 x 22 pairs of hex digits (in the order the translator emits
+    them: one linear comparison instead of 484 searches) -/
+def hexKeys : List (Nat × Nat) := hexDigits.flatMap fun a => hexDigits.map fun b => (a, b)
+
+theorem hexMap_keys : hexMap.map (fun e => (e.1, e.2.1)) = hexKeys := by
   decide +kernel
+
+/-- hence every pair of hex digits is found, with that value -/
+theorem hexMap_complete_of_hex {a b : Nat} (ha : isHexDigit a = true) (hb : isHexDigit b = true) :
+    hexPair? a b = hexSpec a b := by
+  have hk : (a, b) ∈ hexKeys := by
+    simp only [hexKeys, List.mem_flatMap, List.mem_map]
+    exact ⟨a, isHexDigit_mem a ha, b, isHexDigit_mem b hb, rfl⟩
+  rw [← hexMap_keys, List.mem_map] at hk
+  obtain ⟨e0, he0, hkey⟩ := hk
+  unfold hexPair?
+  cases hf : hexMap.find? (fun e => e.1 == a && e.2.1 == b) with
+  | none =>
+    exfalso
+    rw [List.find?_eq_none] at hf
+    have := hf e0 he0
+    simp only [Prod.mk.injEq] at hkey
+    simp [hkey.1, hkey.2] at this
+  | some e =>
+    have hm := List.mem_of_find?_eq_some hf
+    have hpred := List.find?_some hf
+    simp only [Bool.and_eq_true, beq_iff_eq] at hpred
+    have hsnd := hexMap_sound
+    rw [List.all_eq_true] at hsnd
+    have := eq_of_beq (hsnd e hm)
+    rw [hpred.1, hpred.2] at this
+    simp [this]
 
 theorem hexPair_eq_spec (a b : Nat) : hexPair? a b = hexSpec a b := by
   by_cases h : isHexDigit a = true ∧ isHexDigit b = true
-  · have := hexMap_complete
-    rw [List.all_eq_true] at this
-    have h1 := this a (isHexDigit_mem a h.1)
-    rw [List.all_eq_true] at h1
-    exact eq_of_beq (h1 b (isHexDigit_mem b h.2))
+  · exact hexMap_complete_of_hex h.1 h.2
   · have hs : hexSpec a b = none := by
       unfold hexSpec
       simp only [Bool.and_eq_true]
